@@ -28,7 +28,7 @@ ASSUMPTIONS = [
     "item fields of typed scalar lists/dicts are not 'fields of a configuration'; only schema fields carry the flag",
 ]
 REQUIRED = ["sensitive:virtual", "mask:none", "mask:empty", "mask:one-char", "mask:multi", "out:tree", "out:document", "sensitive:nested", "sensitive:list-item",
-            "sensitive:configtype", "sensitive:empty-value"]
+            "sensitive:configtype", "sensitive:empty-value", "sensitive:list-of-configs"]
 LEVEL_TEXT = (
     "Generated schemas/values/masks with a model-computed expected tree compared structurally with the masked "
     "rendering (tree and decoded document); kills mutants whose recursion drops the mask, repeats a multi-character "
@@ -57,7 +57,7 @@ def _mark(node, flags, counter):
             if c["kind"] == "schemalist":  # the list field itself may be marked sensitive, too
                 f = flags[counter[0] % len(flags)]
                 counter[0] += 1
-                if f is not None and counter[0] % 3 == 0:
+                if f is not None and counter[0] % 2 == 0:
                     c = dict(c, sensitive=f)
         elif c["kind"] != "method":  # virtual fields can be marked sensitive, too
             f = flags[counter[0] % len(flags)]
@@ -135,6 +135,8 @@ def _expect(world, cfg, plain, mask, R, node=None, where="root"):
                 continue
         if _is_sensitive(child) and mask is not None:
             out[key] = _masked(value, mask)
+            if value and kind == "schemalist":
+                R.label("sensitive:list-of-configs")
             if value:
                 R.label("sensitive:" + where)
                 if where != "root":
@@ -176,10 +178,9 @@ def run_case(case, R):
             if i in skip:
                 continue
             for raw in case["populate"].get(".".join(path), []):
-                value = specs.realize(raw)
-                if nd["kind"] == "schemalist" and isinstance(value, list):
-                    value = specs.realize([ops.resolve_tree(nd, t, world.ctx, to_basic=False) if isinstance(t, dict) else t for t in value])
-                value = c02._filter_valid(nd, value, world.ctx)
+                value = c02.realize_candidate(nd, raw, world.ctx)
+                if c02._emptied(nd, value, raw, case["populate"].get(".".join(path), [])):
+                    continue
                 try:
                     ops.set_via(cfg, path, value, "setattr")
                     break
